@@ -137,7 +137,7 @@ def judge(sc, r):
         bad.append("panic")
     # the witness in the same session is told exactly once about each removed entity and about the departure
     if (sc["life"] == "full" and sc["fatal"]) or sc["life"] == "switched":
-        got = r["clients"].get("2", [])
+        got = (r["clients"].get("2") or [])
         dels = sorted(m["eid"] for m in got if m["t"] == "ENTITY_DELETE_BROADCAST")
         leaves = [m for m in got if m["t"] == "LEAVE_BROADCAST"]
         if dels != [1, 3]:
@@ -145,7 +145,7 @@ def judge(sc, r):
         if len(leaves) != 1:
             bad.append("witness saw %d departure relays" % len(leaves))
     # the bystander session never hears anything
-    got3 = [m for m in r["clients"].get("3", []) if m["t"].endswith("_BROADCAST")]
+    got3 = [m for m in (r["clients"].get("3") or []) if m["t"].endswith("_BROADCAST")]
     if got3:
         bad.append("a participant of another session received %s" % got3[0]["t"])
     if not r["all_returned"]:
